@@ -2,7 +2,8 @@
    clock semantics.  Socket addresses are numbers (N): the 18-byte form (IPv6 address + port) read as
    a big-endian number; IPv4 addresses are IPv4-mapped first, as `mapped_addr` does.
    Left out: beacons, statistics output, hook scripts, port forwarding, DNS re-resolution (no property
-   depends on them).  HashMap iteration order is not modelled: effects of one step are compared as a
+   depends on them) - except that a lasting FAULT in one of those late housekeeping steps is modelled by
+   ncfg.c_hkfault: housekeep then returns early and never reaches the own-address reset behind them.  HashMap iteration order is not modelled: effects of one step are compared as a
    list sorted by destination, and the random salts of new handshake objects are oracle inputs
    (`salts`: destination -> salt) read back from the real run. *)
 From VpnModel Require Import Base RangeMatch Dissect Table Nonce Replay Core Conn PeerCrypto NodeInfo Interval.
@@ -25,7 +26,9 @@ Record ncfg := {
   c_claims : list (bytes * N);
   c_key : N;
   c_trusted : list N;
-  c_algos : algos }.
+  c_algos : algos;
+  c_hkfault : bool                (* a lasting local fault in a housekeeping step behind the configured-peer step (e.g. a beacon file that cannot be
+                                     read): housekeep returns early there on every tick, the own-address reset behind it is never reached *) }.
 
 (* Crypto::new: without configured trusted keys a node trusts exactly its own key *)
 Definition eff_trusted (c : ncfg) : list N := match c_trusted c with [] => [c_key c] | l => l end.
@@ -395,7 +398,7 @@ Definition housekeep (salts : list (N * N)) (now : Z) (n : node) : node * list e
   (* 5. configured peers *)
   let '(n5, fx5) := reconnect_step salts now n4 in
   (* 7. own addresses reset *)
-  let n6 := if (n_next_own_reset n5 <=? now)%Z
+  let n6 := if negb (c_hkfault (n_cfg n5)) && (n_next_own_reset n5 <=? now)%Z
             then with_sched (upd n5 (n_peers n5) (n_pending n5) [c_addr (n_cfg n5)] (n_table n5)) (n_next_peers n5) (now + 300)%Z (n_reconnect n5)
             else n5 in
   (n6, fx1 ++ fx3 ++ fx4 ++ fx5).
